@@ -3,6 +3,7 @@
    canon (canonicalisers) / digest / sig_ok / parse_cert / reparse.  Cited by C01 and C02. *)
 From Coq Require Import Permutation.
 From V Require Import Base Time Escape Xml Ns Types Profile Decode Response P_Ns P_Response Dsig P_Dsig P_DsigExact.
+From V Require Import Canon P_Canon XmlTok P_XmlTok DsigReader P_DsigReader.
 
 (* accepted => covered: a ds:Signature element inside the element passed the shape check and carries a reference matching the
    element's ID; its certificate is a store member (byte-equal DER) inside its window at the clock; sig_ok accepted the
@@ -142,3 +143,148 @@ Theorem DSIG_response_end_to_end : forall canon digest sig_ok parse_cert reparse
                  Forall (CoveredAssertion canon digest sig_ok parse_cert reparse store now root') (r_assertions r)).
 Proof. exact response_end_to_end. Qed.
 Print Assumptions DSIG_response_end_to_end.
+
+(* ---- the two parser-side oracles instantiated: canon := Canon.canon_model (goxmldsig's canonicalisers as a function),
+        reparse := DsigReader.reparse_model = XmlTok.read_tree (encoding/xml's tokenizer + etree's tree building as functions).
+        What is left as an oracle below: digest, sig_ok, parse_cert. ---- *)
+
+(* the canonical writer followed by the reader: for every tree t and every algorithm a, the tree the verifier decodes from
+   the canonical bytes IS the prepared tree (canonicalPrep / TransformExcC14n of t), normalised as any read-back tree is
+   (adjacent character data merged, empty character data gone, duplicated attributes collapsed).  Premise, on what the
+   canonical writer emits ([c14n_wf_elem p]): an element; names the real reader accepts and splits back into the same
+   (space, tag); values = valid UTF-8 in the XML Char range -- U+000D INCLUDED, the canonical writer emits "&#xD;" --;
+   comments (the with-comments algorithms keep them) without "--" and not ending in '-'; processing instructions (every
+   algorithm keeps them) whose target is a name other than "xml" and whose instruction neither starts with white space nor
+   holds "?>" -- what the reader itself delivers.  Excluded explicitly: directives inside the canonicalised element. *)
+Theorem DSIG_canonical_bytes_reparse_to_prepared_tree : forall a t b,
+  canon_model a t = Some b ->
+  exists p, canon_prep a t = Some p /\ b = c14n_write p /\
+            (c14n_wf_elem p = true -> read_tree b = Ok (normalise p) /\ reparse_model b = Some (normalise p)).
+Proof. exact canonical_bytes_reparse_to_prepared_tree. Qed.
+Print Assumptions DSIG_canonical_bytes_reparse_to_prepared_tree.
+
+(* the premise may be stated on the PRESENTED element, for every algorithm: canonicalPrep only sorts attributes and drops
+   redundant declarations and (without-comments) comments; TransformExcC14n drops the declarations and ADDS xmlns / xmlns:p for
+   the visibly used prefixes with the value in scope -- prefix and value of a declaration attribute of the element or an
+   ancestor (or of the default context), so the added attribute is reader-valid because that declaration was *)
+Theorem DSIG_canonical_bytes_reparse_presented : forall a t b,
+  c14n_wf_elem t = true -> canon_model a t = Some b ->
+  exists p, canon_prep a t = Some p /\ read_tree b = Ok (normalise p) /\ reparse_model b = Some (normalise p).
+Proof. exact canonical_bytes_reparse_presented. Qed.
+Print Assumptions DSIG_canonical_bytes_reparse_presented.
+
+Theorem DSIG_preparation_keeps_premise : forall a t p,
+  c14n_wf_elem t = true -> canon_prep a t = Some p -> c14n_wf_elem p = true.
+Proof. exact canon_prep_wf. Qed.
+Print Assumptions DSIG_preparation_keeps_premise.
+
+(* the tokens / the document behind it: the real tokenizer model reads the canonical bytes to exactly the tree's tokens *)
+Theorem DSIG_canonical_bytes_tokens : forall p, c14n_wf_elem p = true ->
+  raw_tokens (c14n_write p) = Ok (ctoks p) /\ read_doc true (c14n_write p) = Ok [normalise p] /\
+  read_tree (c14n_write p) = Ok (normalise p).
+Proof. exact canonical_bytes_read_back. Qed.
+Print Assumptions DSIG_canonical_bytes_tokens.
+
+(* the second re-read: goxmldsig decodes the canonical SignedInfo bytes with xml.Unmarshal (a fresh decoder's Token() loop), not
+   with etree.  On canonical bytes the element that loop consumes -- under either CharsetReader setting -- is the read-back tree
+   without attribute de-duplication, and for an element without repeated attribute names exactly what read_tree returns: the one
+   function [reparse_model] stands for both re-reads *)
+Theorem DSIG_canonical_bytes_unmarshal_reads_the_same_element : forall c p, c14n_wf_elem p = true ->
+  token_view_with c (c14n_write p) = Ok (normalise_raw p) /\
+  (dup_free p = true -> token_view_with c (c14n_write p) = read_tree (c14n_write p)).
+Proof. exact canonical_bytes_token_view. Qed.
+Print Assumptions DSIG_canonical_bytes_unmarshal_reads_the_same_element.
+
+(* DSIG_sound with both oracles instantiated: accepted => Covered (over the two models), and "result = parse of exactly those
+   bytes" becomes "result = normalise (prepared form of the transformed element)": the accepted tree is a function of the
+   presented tree (through findSignature / transform / the preparation) and of the crypto oracles' verdicts only *)
+Theorem DSIG_sound_reader : forall digest sig_ok parse_cert store now root v,
+  dsig_validate_reader digest sig_ok parse_cert store now root = DOk v ->
+  Covered canon_model digest sig_ok parse_cert reparse_model store now root v /\
+  exists root' f sinfo2 r el_t calg p,
+    find_signature root = Ok (root', f) /\
+    r = last (si_refs sinfo2) zero_ref /\
+    transform root' (fs_path f) r = Ok (el_t, calg) /\
+    canon_prep calg el_t = Some p /\
+    read_tree (c14n_write p) = Ok v /\
+    (c14n_wf_elem p = true -> v = normalise p).
+Proof. exact dsig_sound_reader. Qed.
+Print Assumptions DSIG_sound_reader.
+
+(* headline form (first signature met; transforms = enveloped-signature + one canonicalisation c0):
+   result = normalise (prep c0 (root minus exactly that Signature element)); the premise on the PRESENTED root suffices
+   (removeElementAtPath and the preparation keep it) *)
+Theorem DSIG_sound_reader_first_signature : forall digest sig_ok parse_cert store now root v,
+  dsig_validate_reader digest sig_ok parse_cert store now root = DOk v ->
+  exists root' f sb sin sinfo2 r,
+    find_signature root = Ok (root', f) /\
+    canon_model (fs_si_alg f) (fs_si_detached f) = Some sb /\ reparse_model sb = Some sin /\
+    unmarshal_signed_info sin = Ok sinfo2 /\ r = last (si_refs sinfo2) zero_ref /\
+    (FirstSignature root (fs_path f) ->
+     forall t1 t2 c0, ref_transforms r = [t1; t2] -> tr_alg t1 = alg_enveloped -> c14n_of t2 = Some c0 ->
+       exists body p want,
+         remove_at_path root (fs_path f) = Some body /\ canon_prep c0 body = Some p /\
+         base64_decode (ref_digest_value r) = Some want /\ digest (ref_digest_alg r) (c14n_write p) = Some want /\
+         read_tree (c14n_write p) = Ok v /\
+         (c14n_wf_elem p = true -> v = normalise p) /\
+         (c14n_wf root = true -> v = normalise p)).
+Proof. exact dsig_sound_reader_first_signature. Qed.
+Print Assumptions DSIG_sound_reader_first_signature.
+
+(* ---- the premise discharged for what the reader itself delivers (P_ReaderWf.v: an invariant of the tokenizer state kept by
+        every step, under which every emitted token is well formed; etree's tree building keeps it) ---- *)
+From V Require Import P_ReaderWf.
+
+(* every token RawToken delivers, to etree (which reads to the end) or to a lazy consumer, under either CharsetReader setting:
+   names pass isName / consist of name bytes / are split back by nsname, values are valid UTF-8 in the Char range, comments and
+   processing instructions are as the round trip needs them *)
+Theorem DSIG_reader_tokens_well_formed : forall cs b, forallb tok_ok (token_prefix cs b) = true.
+Proof. exact tokens_wf. Qed.
+Print Assumptions DSIG_reader_tokens_well_formed.
+
+(* whatever read_tree returns satisfies the premise of DSIG_canonical_bytes_reparse_to_prepared_tree unless it holds a directive
+   or a <?xml ...?> instruction inside (both are delivered by the real reader: DSIG_reader_examples' last conjunct) *)
+Theorem DSIG_reader_delivers_premise : forall b t, read_tree b = Ok t ->
+  reader_wf t = true /\ (has_directive_or_xml_pi t = false -> c14n_wf_elem t = true /\ c14n_wf t = true).
+Proof. exact read_tree_wf. Qed.
+Print Assumptions DSIG_reader_delivers_premise.
+
+(* from the wire bytes: the element handed to the verifier was read by the reader model, so no premise on names or values is
+   left; for the usual layout the accepted tree is normalise (prep c0 (read_tree b minus exactly that Signature element)) *)
+Theorem DSIG_sound_reader_from_bytes : forall digest sig_ok parse_cert store now b root v,
+  read_tree b = Ok root -> has_directive_or_xml_pi root = false ->
+  dsig_validate_reader digest sig_ok parse_cert store now root = DOk v ->
+  exists root' f sb sin sinfo2 r,
+    find_signature root = Ok (root', f) /\
+    canon_model (fs_si_alg f) (fs_si_detached f) = Some sb /\ reparse_model sb = Some sin /\
+    unmarshal_signed_info sin = Ok sinfo2 /\ r = last (si_refs sinfo2) zero_ref /\
+    (FirstSignature root (fs_path f) ->
+     forall t1 t2 c0, ref_transforms r = [t1; t2] -> tr_alg t1 = alg_enveloped -> c14n_of t2 = Some c0 ->
+       exists body p,
+         remove_at_path root (fs_path f) = Some body /\ canon_prep c0 body = Some p /\ v = normalise p).
+Proof. exact dsig_sound_reader_from_bytes. Qed.
+Print Assumptions DSIG_sound_reader_from_bytes.
+
+(* non-vacuity, by vm_compute: an element with shuffled attributes, TAB / '>' / a double quote in a value, U+000D in character
+   data, adjacent character data, a comment, two processing instructions and a redundant declaration is read back as its
+   prepared tree under all eight algorithm settings; what the premise excludes is really refused (a comment with "--") or
+   changed (invalid UTF-8 becomes U+FFFD; white space in front of an instruction is dropped) by the reader; the verifier with both oracles instantiated accepts a signed document and returns the prepared
+   tree (attributes sorted, comment dropped, character data merged, U+000D kept) *)
+Theorem DSIG_reader_examples :
+  forallb ReaderExample.reads_back [CExc "" false; CExc "" true; CExc "p x" false; C11 false; C11 true; CRec false; CRec true; CNull] = true /\
+  read_tree (c14n_write (Elem "" "a" [] [Comment "x--y"])) = Err syntax_error /\
+  read_tree (c14n_write (Elem "" "a" [] [Text (String (byte 255) "")])) = Ok (Elem "" "a" [] [Text repl_char]) /\
+  read_tree (c14n_write (Elem "" "a" [] [ProcInst "pi" " x"])) = Ok (Elem "" "a" [] [ProcInst "pi" "x"]) /\
+  read_tree "<a><!DOCTYPE x><?xml version=""1.0""?></a>" = Ok (Elem "" "a" [] [Directive "DOCTYPE x"; ProcInst "xml" "version=""1.0"""]) /\
+  dsig_validate_reader ReaderExample.digest_any ReaderExample.sig_ok_sig ReaderExample.no_cert_parser [Example.the_cert] ReaderExample.t150
+    ReaderExample.doc2
+  = DOk (Elem "" "Root" [Example.A "ID" "x"]
+           [Elem "" "Item" [Example.A "a" "1"; Example.A "b" ("t" ++ ReaderExample.tab)] [Text ("hello" ++ ReaderExample.cr)]]).
+Proof.
+  exact (conj ReaderExample.every_algorithm_reads_back
+          (conj ReaderExample.comment_with_double_dash_not_read_back
+             (conj ReaderExample.invalid_utf8_not_read_back
+                (conj ReaderExample.pi_with_leading_space_changed
+                   (conj directive_inside_is_delivered (proj2 ReaderExample.accepted_tree_is_the_prepared_tree)))))).
+Qed.
+Print Assumptions DSIG_reader_examples.
